@@ -86,6 +86,11 @@ def family(tier):
         # one-shot timeout
         add("os" + r, L("ab", ["(one-shot 3 lsft)", "y"], red=red), "ab", 3,
             constraint="OsB", extra_defs="OsB == Len(K.L.os.keys) <= 2 /\\ Len(K.L.os.other) <= 2 /\\ Len(K.L.os.released) <= 2")
+    # extra_waiting: two tap-holds waiting concurrently (a switch with a fallthrough case); the first one resolves and
+    # leaves `waiting` empty while the second is still counting in extra_waiting
+    add("xwait", L("ab", ["(switch () (tap-hold 0 2 x lsft) fallthrough () (tap-hold 0 5 y lctl) break)", "z"],
+                   opts="concurrent-tap-hold yes"), "ab", 5, caps={"since": 12, "hist": 0}, constraint="XwB",
+        extra_defs="XwB == Len(K.L.extra) <= 2 /\\ Len(K.L.states) <= 4")
     # last_press_tracker.tap_hold_timeout outliving everything else: tap-repress window 5 > hold timeout 2
     add("thtt", L("ab", ["(tap-hold 5 2 x lsft)", "y"]), "ab", 5)
     # active sequences (macro with a delay)
@@ -166,6 +171,9 @@ RICH = [
     ("macro_btn", "(defsrc a b c)\n(deflayer l0 (macro x mlft mrgt) (macro 5 mmid mlft) c)\n", {}, ["a", "b", "c"], [5]),
     ("switch_gt", "(defsrc a b c)\n(deflayer l0 (switch ((key-timing 1 gt 40)) x break () y break) b "
                   "(switch ((key-timing 2 gt 25)) 1 break () 2 break))\n", {}, ["a", "b", "c"], [25, 40]),
+    ("concurrent_th", "(defcfg concurrent-tap-hold yes)\n(defsrc a b c)\n"
+                      "(deflayer l0 (switch () (tap-hold 0 20 x lsft) fallthrough () (tap-hold 0 60 y lctl) break) "
+                      "(tap-hold 0 40 b lalt) c)\n", {}, ["a", "b", "c"], [20, 40, 60]),
     ("tapdance", "(defsrc a b)\n(deflayer l0 (tap-dance 50 (x y z)) (tap-dance-eager 40 (1 2)))\n", {}, ["a", "b"], [40, 50]),
     ("chordv1", "(defsrc a b c)\n(defchords g 30 (a) x (b) y (c) z (a b) 1 (a b c) 2)\n"
                 "(deflayer l0 (chord g a) (chord g b) (chord g c))\n", {}, ["a", "b", "c"], [30]),
@@ -657,14 +665,15 @@ def run(tier, seed):
                 for k in ("caps", "constraint"):
                     if k in f["opt"]:
                         inst[k] = f["opt"][k]
+                inst["extra_tags"] = ["NOSTUTTERX"]
                 r = mc.check_instance(inst, wd, workers=4, timeout=1500)
-                r["n_nostutterx"] = extract_prints(r["tlc_out"], "NOSTUTTERX",
-                                                   os.path.join(wd, "MC_" + inst["name"] + ".nostutterx.ndjson"))
                 results[f["name"]] = r
             except Exception as ex:       # re-raised in the main thread
                 errors.append(ex)
 
     cfgdesc.keytable()
+    # the edge lists are needed below (TLC-generated prefixes); they and the TLC outputs are removed after use
+    os.environ["KVERIF_KEEP"] = "1"
     ths = [threading.Thread(target=work, args=(f,)) for f in fam]
     for t in ths:
         t.start()
@@ -707,6 +716,9 @@ def run(tier, seed):
                 cases.append({"hist": flow.hist_to_script(h), "points": "end", "ks": k, "conts": conts,
                               "tail": 3 * tmax + 12})
         pairs.add(f["kbd"], {}, cases, "l1:" + f["name"], {"model_cb_edges": nyes})
+        for k in ("tlc_out", "edges_file"):
+            if r.get(k) and os.path.exists(r[k]):
+                os.remove(r[k])
         # ---- part 2 (ii a): random histories on the same configuration, every blocked stretch, + blocking stepper
         n = 6 if quick else 60
         cases = []
